@@ -6,6 +6,8 @@ set -u
 id=$1; sd=$2; prop=$3; copies=$4; pkgs=$5; rx=$6; needs=$7
 export GOFLAGS=-mod=mod GOPROXY=off GOSUMDB=off GOTOOLCHAIN=local
 wt=/tmp/sv-$id
+# pkg/appctl tests share $TMPDIR/server.conf.pb: keep concurrent suite runs apart
+export TMPDIR=/tmp/sv-tmp-$id; rm -rf $TMPDIR; mkdir -p $TMPDIR
 out=/verif/seeded/$id
 mkdir -p $out
 log=$out/verify.log
@@ -43,4 +45,5 @@ print(json.dumps({"id":id,"property":prop,"needs_to_manifest":needs,
  "detected_by":[]},indent=1))
 PY
 cd /; git -C /repo worktree remove --force $wt
+rm -rf /tmp/sv-tmp-$id
 res "RESULT kept=$ok"
